@@ -128,7 +128,7 @@ def make_case(seed, idx, tier):
         "genomes_hex": [[float(x).hex() for x in p] for p in pts],
         "fits_hex": [float(f).hex() for f in fits],
         "maximize": maximize,
-        "factor": rng.choice([0.5, 1.0, 2.0, 3.0, 4.0, 1.5]),
+        "factor": rng.choice([0.5, 1.0, 2.0, 3.0, 4.0, 1.5, 0.0]),
         "trunc": trunc,
         "idx": idx,
     }
